@@ -1162,7 +1162,7 @@ class Evaluator:
         self.assign(st.target, elem_v, live, st)
         inner = AND(live, ("inloop", lid), *conds)
         for p in reversed(preds):
-            c = self._apply_fn(p, [elem_v])
+            c = self._fold_records(fold_sub(self._apply_fn(p, [elem_v])))
             self.emit("break", AND(inner, NOT(c)), NONE, st)
             inner = AND(inner, c)
         self.block(st.body, inner)
@@ -2821,7 +2821,7 @@ class Evaluator:
         self.assign(st.target, val, live, st)
         inner_ = AND(live, ylive)
         for p_ in reversed(preds):
-            c_ = self._apply_fn(p_, [val])
+            c_ = self._fold_records(fold_sub(self._apply_fn(p_, [val])))
             self.emit("break", AND(inner_, NOT(c_)), NONE, st)
             inner_ = AND(inner_, c_)
         self.block(st.body, inner_)
